@@ -30,6 +30,8 @@ func alphabetFor(mode string) lexAlphabet {
 	switch mode {
 	case "fold":
 		return lexAlphabet{Mode: mode, Chars: []string{"a", "b", "A", "B", "c"}, Pat: []string{"a", "b", "A", "B", "c"}, Width: []int{1, 1, 1, 1, 1}, Canon: []int{1, 2, 1, 2, 5}}
+	case "foldbytes":
+		return lexAlphabet{Mode: mode, Chars: []string{"k", "K", "s", "S", "a"}, Pat: []string{"k", "K", "s", "S", "a"}, Width: []int{1, 1, 1, 1, 1}, Canon: []int{1, 1, 3, 3, 5}}
 	case "bytes":
 		return lexAlphabet{Mode: mode, Chars: []string{"a", "b", "\x7f", "\x80", "\x85", "\xc3", "\xff"}, Pat: []string{"a", "b", `\x7f`, `\x80`, `\x85`, `\xc3`, `\xff`},
 			Width: []int{1, 1, 1, 1, 1, 1, 1}, Canon: []int{1, 2, 3, 4, 5, 6, 7}}
@@ -129,7 +131,7 @@ func lexExec(c *lexCase) {
 	if c.NSC == 0 {
 		c.NSC = 1
 	}
-	opts := lex.CharsetOptions{Fold: a.Mode == "fold", ScanBytes: a.Mode == "bytes"}
+	opts := lex.CharsetOptions{Fold: a.Mode == "fold" || a.Mode == "foldbytes", ScanBytes: a.Mode == "bytes" || a.Mode == "foldbytes"}
 	var rules []*lex.Rule
 	var srules []shiftdfa.Rule
 	for i := range c.Rules {
@@ -166,6 +168,27 @@ func lexExec(c *lexCase) {
 		}
 	}
 	rec(nil)
+	// deeper texts: random members of each rule's language, their prefixes and one-symbol extensions
+	rs := rand.New(rand.NewSource(int64(len(c.Rules))*7919 + int64(c.L)))
+	seenText := map[string]bool{}
+	for _, tx := range texts {
+		seenText[fmt.Sprint(tx)] = true
+	}
+	addText := func(tx []int) {
+		if k := fmt.Sprint(tx); len(tx) <= 14 && !seenText[k] && len(texts) < 4000 {
+			seenText[k] = true
+			texts = append(texts, append([]int{}, tx...))
+		}
+	}
+	for i := range c.Rules {
+		for n := 0; n < 6; n++ {
+			w := sampleRE(rs, c.Rules[i].Re, len(a.Chars), 12)
+			for p := 1; p <= len(w); p++ {
+				addText(w[:p])
+				addText(append(append([]int{}, w[:p]...), 1+rs.Intn(len(a.Chars))))
+			}
+		}
+	}
 	str := func(t []int) string {
 		var sb strings.Builder
 		for _, x := range t {
@@ -182,7 +205,7 @@ func lexExec(c *lexCase) {
 			}
 		}
 	}
-	if a.Mode == "bytes" && c.NSC == 1 {
+	if a.Mode == "bytes" && c.NSC == 1 { // shiftdfa.Compile has no case-folding option
 		sd, err := shiftdfa.Compile(srules, shiftdfa.Options{})
 		if err != nil {
 			c.SdfaErr = err.Error()
@@ -262,6 +285,62 @@ func genRE(r *rand.Rand, d, nsym int) *reAST {
 	}
 }
 
+// sampleRE returns a random string of the regexp's language (bounded length), symbols 1..nsym.
+func sampleRE(r *rand.Rand, e *reAST, nsym, budget int) []int {
+	switch e.K {
+	case "lit":
+		return []int{e.C[0]}
+	case "class":
+		if !e.Neg {
+			return []int{e.C[r.Intn(len(e.C))]}
+		}
+		for tries := 0; tries < 20; tries++ {
+			x := 1 + r.Intn(nsym)
+			ok := true
+			for _, c := range e.C {
+				if c == x {
+					ok = false
+				}
+			}
+			if ok {
+				return []int{x}
+			}
+		}
+		return []int{1}
+	case "cat":
+		a := sampleRE(r, e.Sub[0], nsym, budget)
+		return append(a, sampleRE(r, e.Sub[1], nsym, budget-len(a))...)
+	case "alt":
+		return sampleRE(r, e.Sub[r.Intn(2)], nsym, budget)
+	case "opt":
+		if r.Intn(2) == 0 {
+			return nil
+		}
+		return sampleRE(r, e.Sub[0], nsym, budget)
+	case "star", "plus", "rep":
+		min, max := 0, 3
+		if e.K == "plus" {
+			min = 1
+		}
+		if e.K == "rep" {
+			min, max = e.Min, e.Max
+			if max == -1 {
+				max = min + 2
+			}
+		}
+		n := min
+		if max > min {
+			n += r.Intn(max - min + 1)
+		}
+		var out []int
+		for i := 0; i < n && len(out) < budget; i++ {
+			out = append(out, sampleRE(r, e.Sub[0], nsym, budget-len(out))...)
+		}
+		return out
+	}
+	return nil
+}
+
 func reNullable(e *reAST) bool {
 	switch e.K {
 	case "lit", "class":
@@ -292,12 +371,19 @@ func lexRandom(args []string) error {
 	}
 	for id := 0; id < n; id++ {
 		c := &lexCase{ID: id, Mode: mode, L: L, NSC: 1}
-		if mode != "bytes" && r.Intn(4) == 0 {
+		if mode != "bytes" && mode != "foldbytes" && r.Intn(4) == 0 {
 			c.NSC = 2
 		}
 		nr := 1 + r.Intn(3)
 		for i := 0; i < nr; i++ {
 			re := genRE(r, 1+r.Intn(3), len(a.Chars))
+			if i == 0 && r.Intn(6) == 0 { // keyword-like rule: a chain of 7..10 literals (many DFA states)
+				n := 7 + r.Intn(4)
+				re = &reAST{K: "lit", C: []int{1 + r.Intn(2)}}
+				for k := 1; k < n; k++ {
+					re = &reAST{K: "cat", Sub: []*reAST{re, {K: "lit", C: []int{1 + r.Intn(2)}}}}
+				}
+			}
 			if reNullable(re) && r.Intn(10) != 0 { // rule sets with a nullable rule are rejected; keep a few to test that
 				re = &reAST{K: "cat", Sub: []*reAST{{K: "lit", C: []int{1 + r.Intn(len(a.Chars))}}, re}}
 			}
